@@ -41,9 +41,28 @@ def as_built_dev():
 
 
 # ---------------------------------------------------------------- rendering
+# every project also holds one module whose page shows many items with related names: defined operators that differ only in
+# punctuation (as interfaces of the module and as generic bindings of a type), an assignment, a type and its constructor
+OPS = (("+", "add"), ("-", "sub"), ("==", "eq"), ("<", "lt"), ("<=", "le"), ("*", "mul"), ("/", "div"))
+ANCHOR_FIXTURE = (
+    "module anchorfix\n  implicit none\n  type :: vecq\n    !! a type with operator bindings\n    integer :: x\n  contains\n"
+    + "".join(f"    procedure :: b{n}\n" for _, n in OPS) + "    procedure :: basg\n"
+    + "".join(f"    generic :: operator({o}) => b{n}\n" for o, n in OPS) + "    generic :: assignment(=) => basg\n  end type vecq\n"
+    + "".join(f"  interface operator({o})\n    module procedure i{n}\n  end interface\n" for o, n in OPS)
+    + "  interface assignment(=)\n    module procedure iasg\n  end interface\n"
+    + "  interface vecq\n    module procedure make_vecq\n  end interface\ncontains\n"
+    + "".join(f"  function b{n}(p, q) result(r)\n    class(vecq), intent(in) :: p\n    integer, intent(in) :: q\n    {'logical' if n in ('eq', 'lt', 'le') else 'integer'} :: r\n"
+              f"    r = {'p%x ' + o + ' q'}\n  end function b{n}\n" for o, n in OPS)
+    + "  subroutine basg(p, q)\n    class(vecq), intent(out) :: p\n    integer, intent(in) :: q\n    p%x = q\n  end subroutine basg\n"
+    + "".join(f"  function i{n}(p, q) result(r)\n    logical, intent(in) :: p\n    character(len=*), intent(in) :: q\n    logical :: r\n    r = p\n  end function i{n}\n" for o, n in OPS)
+    + "  subroutine iasg(p, q)\n    logical, intent(out) :: p\n    character(len=*), intent(in) :: q\n    p = len(q) > 0\n  end subroutine iasg\n"
+    + "  function make_vecq(k) result(v)\n    real, intent(in) :: k\n    type(vecq) :: v\n    v%x = int(k)\n  end function make_vecq\n"
+    + "end module anchorfix\n")
+
+
 def render(ents):
     """ents: list of {dir, raw}.  Returns (files, expected entity descriptors)."""
-    files = {}
+    files = {"zz_anchorfix.f90": ANCHOR_FIXTURE}
     expect = []
     seen_module_io = False
     seen_program = set()
@@ -252,6 +271,8 @@ def known(p, ents, ck):
         if m and all(i.startswith("variable-") for i in p["ids"]) and int(m.group(1)) <= len(ents) \
                 and ents[int(m.group(1)) - 1]["dir"] == "interface":
             return ck.known_finding("C10-F3")
+        if p.get("page") == "module/anchorfix.html" and all(i.startswith("variable-") for i in p["ids"]):
+            return ck.known_finding("C10-F3")       # the fixture's interfaces name module procedures, too
     return False
 
 
